@@ -82,8 +82,16 @@ func oracle(c caseT, b *built, pool reverseproxy.UpstreamPool, ri reqInfo, resul
 			}
 		case r.idx == -4:
 			add("unexpected-panic:"+eff.kind, "Select panicked or returned an upstream that is not in the pool")
+		case r.idx == -5:
+			if cookieUnderNilWriter(c) {
+				add("cookie-fallback-nil-writer-panic", "a cookie policy used as fallback of a header/query policy panicked (nil pointer dereference): it is handed a nil ResponseWriter and tries to set a cookie on it")
+			} else {
+				add("unexpected-panic:"+eff.kind, "Select panicked: nil pointer dereference")
+			}
 		case r.idx == -1:
-			if anyEligible {
+			if anyEligible && eff.kind == "rr" && rrWrapped(b, leaf, n) {
+				add("rr-counter-wrap", fmt.Sprintf("round_robin returned nil although an upstream is available while its uint32 counter wrapped around (pool of %d, availability %s)", n, bits))
+			} else if anyEligible {
 				add("nil-though-available:"+eff.kind, fmt.Sprintf("selection %d returned nil although an upstream is available (availability %s)", t, bits))
 			}
 		default:
@@ -137,8 +145,8 @@ func oracle(c caseT, b *built, pool reverseproxy.UpstreamPool, ri reqInfo, resul
 						break
 					}
 				}
-				if i != first || len(r.cookies) != 0 {
-					add("cookie-not-followed", fmt.Sprintf("request carries the valid cookie of dial %d (upstream %d) but upstream %d was returned (Set-Cookie: %v)", eff.cookie, first, i, r.cookies))
+				if i != first {
+					add("cookie-not-followed", fmt.Sprintf("request carries the valid cookie of dial %d (upstream %d) but upstream %d was returned", eff.cookie, first, i))
 				}
 			}
 			// round robin: the available upstreams are visited in cyclic order
@@ -151,9 +159,8 @@ func oracle(c caseT, b *built, pool reverseproxy.UpstreamPool, ri reqInfo, resul
 					}
 				}
 				if want != i {
-					final, _ := strconv.ParseUint(b.counter(), 10, 64)
-					if final < uint64(leaf.counter) && n&(n-1) != 0 {
-						add("rr-counter-wrap-breaks-cycle", fmt.Sprintf("round_robin after upstream %d returned %d instead of %d while its uint32 counter wrapped around (pool of %d)", rrPrev, i, want, n))
+					if rrWrapped(b, leaf, n) {
+						add("rr-counter-wrap", fmt.Sprintf("round_robin after upstream %d returned %d instead of %d while its uint32 counter wrapped around (pool of %d)", rrPrev, i, want, n))
 					} else {
 						add("rr-not-cyclic", fmt.Sprintf("round_robin: selection %d returned upstream %d, the next available one in cyclic order after %d is %d (availability %s)", t, i, rrPrev, want, bits))
 					}
@@ -161,7 +168,7 @@ func oracle(c caseT, b *built, pool reverseproxy.UpstreamPool, ri reqInfo, resul
 				rrPrev = i
 			}
 			// cookie policies on the way that could not follow a cookie must set the cookie of the selected upstream
-			if eff.kind != "ck" {
+			{
 				okc := len(r.cookies) == traversed
 				for _, ck := range r.cookies {
 					if ck != strconv.Itoa(c.pool[i].id) {
@@ -191,6 +198,46 @@ func oracle(c caseT, b *built, pool reverseproxy.UpstreamPool, ri reqInfo, resul
 		wrrWindow(c, av, ws, wsum, add)
 	}
 	return fs
+}
+
+// rrWrapped: did the round-robin counter wrap around 2^32 during this case, with a pool
+// size that does not divide 2^32?
+func rrWrapped(b *built, leaf node, n int) bool {
+	final, _ := strconv.ParseUint(b.counter(), 10, 64)
+	return final < uint64(leaf.counter) && n&(n-1) != 0
+}
+
+// cookieUnderNilWriter: does the request reach a cookie policy that has to set a cookie
+// below a header/query policy (which calls its fallback with a nil ResponseWriter)?
+func cookieUnderNilWriter(c caseT) bool {
+	absent := false
+	for _, n := range c.chain {
+		switch n.kind {
+		case "hdr", "hhost", "qry":
+			if n.present {
+				return false
+			}
+			absent = true
+		case "ck":
+			valid := false
+			if n.cookie >= 0 {
+				for _, u := range c.pool {
+					if u.avail() && u.id == n.cookie {
+						valid = true
+					}
+				}
+			}
+			if valid {
+				return false
+			}
+			if absent {
+				return true
+			}
+		default:
+			return false
+		}
+	}
+	return false
 }
 
 // traversedCookieNodes counts the cookie policies that are passed through on the way to
